@@ -2,3 +2,4 @@
 #![allow(unused_imports, dead_code, missing_docs, missing_debug_implementations, unused_variables)]
 pub mod wire;
 pub mod fold;
+pub mod tok;
